@@ -289,7 +289,11 @@ class PKESessionKeyV3(PKESessionKey):
         del packet[0]
 
         if self.ct is not None:
-            self.ct.parse(packet)
+            # the encrypted session key ends where the packet ends, whatever follows it in the buffer
+            ctlen = max(self.header.length - 10, 0)
+            ctdata = packet[:ctlen]
+            del packet[:ctlen]
+            self.ct.parse(ctdata)
 
         else:  # pragma: no cover
             # version (1) + key id (8) + algorithm (1) octets of the body have been consumed;
